@@ -26,7 +26,8 @@
 #include <sys/stat.h>
 
 #define BUFSZ (1u << 20)
-static union { unsigned char b[BUFSZ + 64]; double d[1]; const char *p[1]; } BUF;
+static union { unsigned char b[BUFSZ + 64]; double d[1]; const char *p0; } BUF;
+#define BUFP ((const char **)(void *)BUF.b)
 static DIRFILE *D;
 static char WD[2000], DD[2100];
 static int verbose;
@@ -389,10 +390,10 @@ static int call(const char *op)
   OP("put_carray") { size_t n = gd_array_len(D, S(0)); NEED((n + 1) * 16); memset(BUF.b, 1, (n + 1) * 16); RET = gd_put_carray(D, S(0), T(1), BUF.b); }
   OP("get_constant") RET = gd_get_constant(D, S(0), T(1), BUF.b);
   OP("put_constant") { memset(BUF.b, 1, 16); RET = gd_put_constant(D, S(0), T(1), BUF.b); }
-  OP("get_sarray_slice") { if (!MULOK(Z(2), 8)) { RSKIP = 1; return 0; } RET = gd_get_sarray_slice(D, S(0), U(1), Z(2), BUF.p); }
-  OP("put_sarray_slice") { size_t n = Z(2), k; if (!MULOK(n, 8)) { RSKIP = 1; return 0; } for (k = 0; k < n; k++) BUF.p[k] = "w"; RET = gd_put_sarray_slice(D, S(0), U(1), n, BUF.p); }
-  OP("get_sarray") { size_t n = gd_array_len(D, S(0)); NEED((n + 1) * 8); RET = gd_get_sarray(D, S(0), BUF.p); }
-  OP("put_sarray") { size_t n = gd_array_len(D, S(0)), k; NEED((n + 1) * 8); for (k = 0; k <= n; k++) BUF.p[k] = "w"; RET = gd_put_sarray(D, S(0), BUF.p); }
+  OP("get_sarray_slice") { if (!MULOK(Z(2), 8)) { RSKIP = 1; return 0; } RET = gd_get_sarray_slice(D, S(0), U(1), Z(2), BUFP); }
+  OP("put_sarray_slice") { size_t n = Z(2), k; if (!MULOK(n, 8)) { RSKIP = 1; return 0; } for (k = 0; k < n; k++) BUFP[k] = "w"; RET = gd_put_sarray_slice(D, S(0), U(1), n, BUFP); }
+  OP("get_sarray") { size_t n = gd_array_len(D, S(0)); NEED((n + 1) * 8); RET = gd_get_sarray(D, S(0), BUFP); }
+  OP("put_sarray") { size_t n = gd_array_len(D, S(0)), k; NEED((n + 1) * 8); for (k = 0; k <= n; k++) BUFP[k] = "w"; RET = gd_put_sarray(D, S(0), BUFP); }
   OP("get_string") { NEED(Z(1)); RET = (long long)gd_get_string(D, S(0), Z(1), (char *)BUF.b); }
   OP("put_string") RET = gd_put_string(D, S(0), S(1));
   OP("array_len") RET = (long long)gd_array_len(D, S(0));
@@ -462,7 +463,7 @@ static int call(const char *op)
   OP("add_const") { memset(BUF.b, 1, 16); RET = gd_add_const(D, S(0), T(1), T(2), BUF.b, I(3)); }
   OP("add_carray") { if (!MULOK(Z(2), 16)) { RSKIP = 1; return 0; } memset(BUF.b, 1, Z(2) * 16 + 16); RET = gd_add_carray(D, S(0), T(1), Z(2), T(3), BUF.b, I(4)); }
   OP("add_string") RET = gd_add_string(D, S(0), S(1), I(2));
-  OP("add_sarray") { size_t n = Z(1), k; if (!MULOK(n, 8)) { RSKIP = 1; return 0; } for (k = 0; k < n; k++) BUF.p[k] = "v"; RET = gd_add_sarray(D, S(0), n, BUF.p, I(2)); }
+  OP("add_sarray") { size_t n = Z(1), k; if (!MULOK(n, 8)) { RSKIP = 1; return 0; } for (k = 0; k < n; k++) BUFP[k] = "v"; RET = gd_add_sarray(D, S(0), n, BUFP, I(2)); }
   OP("add_alias") RET = gd_add_alias(D, S(0), S(1), I(2));
   OP("add_lincom") { int n = I(1); if (n > GD_MAX_LINCOM + 2) { RSKIP = 1; return 0; } for (i = 0; i < GD_MAX_LINCOM + 2; i++) inf[i] = S(2); RET = gd_add_lincom(D, S(0), n, inf, ones, ones, I(3)); }
   OP("add_polynom") { int n = I(1); if (n > GD_MAX_POLYORD + 6) { RSKIP = 1; return 0; } RET = gd_add_polynom(D, S(0), n, S(2), ones, I(3)); }
@@ -483,7 +484,7 @@ static int call(const char *op)
   OP("madd_alias") RET = gd_madd_alias(D, S(0), S(1), S(2));
   OP("madd_lincom") { int n = I(2); if (n > GD_MAX_LINCOM + 2) { RSKIP = 1; return 0; } for (i = 0; i < GD_MAX_LINCOM + 2; i++) inf[i] = S(3); RET = gd_madd_lincom(D, S(0), S(1), n, inf, ones, ones); }
   OP("madd_polynom") { int n = I(2); if (n > GD_MAX_POLYORD + 6) { RSKIP = 1; return 0; } RET = gd_madd_polynom(D, S(0), S(1), n, S(3), ones); }
-  OP("madd_sarray") { size_t n = Z(2), k; if (!MULOK(n, 8)) { RSKIP = 1; return 0; } for (k = 0; k < n; k++) BUF.p[k] = "v"; RET = gd_madd_sarray(D, S(0), S(1), n, BUF.p); }
+  OP("madd_sarray") { size_t n = Z(2), k; if (!MULOK(n, 8)) { RSKIP = 1; return 0; } for (k = 0; k < n; k++) BUFP[k] = "v"; RET = gd_madd_sarray(D, S(0), S(1), n, BUFP); }
   OP("alter_raw") RET = gd_alter_raw(D, S(0), T(1), (unsigned)U(2), I(3));
   OP("alter_bit") RET = gd_alter_bit(D, S(0), *A[1] == '!' ? NULL : S(1), I(2), I(3));
   OP("alter_sbit") RET = gd_alter_sbit(D, S(0), *A[1] == '!' ? NULL : S(1), I(2), I(3));
